@@ -5,5 +5,5 @@ EXTENDS MTestNewton
 MCAlgos == {NoAccel} \cup Registered
            \cup {[a EXCEPT !.trig = a.mintrig] : a \in {x \in Registered : x.mintrig > 0}}
            \cup {[a EXCEPT !.per = 1] : a \in {x \in Registered : x.pper}}
-MCIterMaxs == {1, 2, 3, 6}
+MCIterMaxs == {1, 2, 4}
 =============================================================================
